@@ -85,6 +85,18 @@ func genMapProg(r rng, n int, keys []int, pClear, pLoad float64) []wop {
 	return p
 }
 
+// nilValues replaces a few written values by an untyped nil (any-valued
+// containers only): a stored nil is a present value like any other.
+func nilValues(r rng, progs [][]wop) {
+	for _, p := range progs {
+		for i := range p {
+			if p[i].v != nil && p[i].kind != oCompute && r.chance(0.04) {
+				p[i].v = nil
+			}
+		}
+	}
+}
+
 func execMapOp(m mapAPI, w *wop, client int) *hev {
 	h := &hev{Client: client, Kind: w.kind, K: w.k, V: w.v, Fn: w.fn, Zero: m.Zero()}
 	h.Call = tick()
@@ -416,7 +428,9 @@ func genMapRound(r rng, prop string, flavors []string, hashers []string) (*mapRo
 			rd.progs = append(rd.progs, genMapProg(r, r.between(10, 40), rd.hot, 0.08, 0.4))
 		}
 	}
-	// cap recorded ops per key (porcupine cost climbs steeply)
+	if m.Zero() == nil && rd.family != "read-storm" && rd.family != "clear-probe" {
+		nilValues(r, rd.progs)
+	}
 	return rd, m
 }
 
